@@ -72,7 +72,9 @@ def size(case, sched):
 
 
 def run(chk):
+    t_b0 = time.time()
     chk.build_and_prove()
+    t_build = time.time() - t_b0
     quick = chk.tier == "quick"
     t_budget = (34 if quick else 480) * (3 if chk.broken and quick else 1)
     t_start = time.time()
@@ -114,6 +116,8 @@ def run(chk):
                 chk.notes.append(f"time budget reached after {ci} of {len(base)} base cases")
                 break
             for kind in R.KINDS:
+                if time.time() - t_start > t_budget * 1.3:
+                    break
                 case = dict(b, kind=kind)
                 box = {}
 
@@ -159,6 +163,7 @@ def run(chk):
                     imm_meta.append((t0, op, later, log))
                     distinct.add(json.dumps([t0, op, later]))
                     nontrivial.add(json.dumps([t0, op, later]))
+    t_explore = time.time() - t_start
     bad, logs = lib.correspondence("C34", "to", R.T_IMPORTS, R.T_CASE_TY, R.T_MODEL_FN, "toutcome_eqb", coq_cases,
                                    shard=150)
     for b in bad[:5]:
@@ -176,6 +181,8 @@ def run(chk):
             chk.tie_broken("correspondence shard failed to evaluate", logs2[:1])
         else:
             chk.tie_broken("correspondence ImmediateScheduler vs Core/RealTime.v", {"case": imm_meta[b]})
+    chk.cov["phase_seconds"] = {"build_and_prove": round(t_build, 1), "explore": round(t_explore, 1),
+                                "coq_correspondence": round(time.time() - t_start - t_explore, 1)}
     chk.cov["evaluations"] = evals
     chk.cov["distinct_nontrivial"] = len(nontrivial)
     chk.cov["rule"] = ("base case = 1-2 calling threads with 1-3 calls (schedule / relative / absolute / dispose of a "
